@@ -149,12 +149,14 @@ Proof. intros H [F1 F2] E1 E2 E3 E4. rewrite F1, F2. now apply QC_same. Qed.
 (* ================================================================== *)
 (* Part 2: one step of mu.c, the other threads' roles being arbitrary  *)
 (* ================================================================== *)
-(* thread-local facts remembered in the pc (MuProof2.pcA without "wake u <> []") *)
+(* thread-local facts remembered in the pc (MuProof2.pcA; "wake u <> []" holds again since wake_waiters takes MU_WAITING
+   back over an empty queue: the releaser that took the spinlock saw MU_WAITING with the spinlock free, hence a waiter) *)
 Definition pcA' (p : pc) : Prop :=
   match p with
   | LsCasEnq _ _ old => tb1 old = false
   | UsCasSpin _ old => tb1 old = false /\ tb2 old = true
-  | UsRelLoad _ u | UsRelCas _ u _ => tb1 (clear_on u) = true /\ tb1 (set_on u) = false /\ tb2 (set_on u) = false
+  | UsRelLoad _ u | UsRelCas _ u _ =>
+      wake u <> [] /\ tb1 (clear_on u) = true /\ tb1 (set_on u) = false /\ tb2 (set_on u) = false
   | _ => True
   end.
 
@@ -235,14 +237,15 @@ Proof.
     + destruct (us_after_scan _) as [u keep] eqn:E.
       apply us_after_scan_facts in E. cbn [queue set_word] in E.
       destruct E as (P & Nw & C1 & S1 & S2 & Cw). cbn [fst]. normt Hs' Ht.
-      cbn [t_pc role_of pcA' word queue]. split; [|auto].
+      cbn [t_pc role_of pcA' word queue]. split.
+      2:{ split; [|auto]. apply Nw. destruct HQ as (_ & _ & _ & _ & _ & _ & Q6). apply Q6; rewrite Hcas; apply HA. }
       subst old. destruct (unlock_slow_cas2_bits m (word w) Hheld) as [B1 B2]. cbv zeta in B1, B2.
       destruct HA as [A1 A2]. rewrite B1, B2, A2.
       apply (QC_scan true (queue w)); [|exact Cw]. rewrite A1, A2 in HQ. exact HQ.
     + normt Hs' Ht. c_same HQ Kt.
   - (* UsRelLoad *) cbn [fst]. normt Hs' Ht. c_same HQ Kt. exact HA.
   - (* UsRelCas *) destruct Hok as (_ & (Hlate & _)). cas_split w; normt Hs' Ht.
-    + destruct HA as (C1 & S1 & S2).
+    + destruct HA as (Nw & C1 & S1 & S2).
       assert (role_of (match wake u with [] => Idle | _ :: _ => UsWakeStore m u end) = Rwake (wake u)) as Er
         by (destruct (wake u) eqn:Ew; cbn [role_of]; rewrite ?Ew; reflexivity).
       cbn [t_pc word queue]. rewrite Er. split; [|destruct (wake u); exact I].
@@ -390,33 +393,35 @@ Proof.
 Qed.
 
 (* set_on_release = MU_WRITER_WAITING only if a writer was transferred *)
-Lemma xfer_rest_taw ty fca fw q : forall a b,
-  snd (fst (xfer_rest ty fca fw q a b)) = true -> a = true \/ fst (fst (fst (xfer_rest ty fca fw q a b))) <> [].
+Lemma xfer_rest_taw nn ty fca fw q : forall a b,
+  snd (fst (xfer_rest nn ty fca fw q a b)) = true -> a = true \/ fst (fst (fst (xfer_rest nn ty fca fw q a b))) <> [].
 Proof.
   induction q as [|p rest IH]; intros a b; cbn [xfer_rest]; [cbn [fst snd]; auto|].
-  destruct (fca || fw || mode_eqb (ty p) W).
+  destruct (nn p); [|destruct (fca || fw || mode_eqb (ty p) W)].
+  - specialize (IH a b).
+    destruct (xfer_rest nn ty fca fw rest a b) as [[[m s] a'] b']. cbn [fst snd] in *. exact IH.
   - specialize (IH (a || mode_eqb (ty p) W) b).
-    destruct (xfer_rest ty fca fw rest (a || mode_eqb (ty p) W) b) as [[[m s] a'] b']. cbn [fst snd] in *.
+    destruct (xfer_rest nn ty fca fw rest (a || mode_eqb (ty p) W) b) as [[[m s] a'] b']. cbn [fst snd] in *.
     intros _. right. discriminate.
   - specialize (IH a (b || negb (mode_eqb (ty p) W))).
-    destruct (xfer_rest ty fca fw rest a (b || negb (mode_eqb (ty p) W))) as [[[m s] a'] b']. cbn [fst snd] in *. exact IH.
+    destruct (xfer_rest nn ty fca fw rest a (b || negb (mode_eqb (ty p) W))) as [[[m s] a'] b']. cbn [fst snd] in *. exact IH.
 Qed.
 
-Lemma xfer_ww_moved ty fca wk : snd (xfer ty fca wk) = MU_WRITER_WAITING -> fst (fst (xfer ty fca wk)) <> [].
+Lemma xfer_ww_moved nn ty fca wk : snd (xfer nn ty fca wk) = MU_WRITER_WAITING -> fst (fst (xfer nn ty fca wk)) <> [].
 Proof.
   unfold xfer. destruct wk as [|f rest]; [cbn [snd]; discriminate|].
-  pose proof (xfer_rest_taw ty fca (mode_eqb (ty f) W) rest (if fca then mode_eqb (ty f) W else false)
+  pose proof (xfer_rest_taw nn ty fca (mode_eqb (ty f) W) rest (if fca then mode_eqb (ty f) W else false)
                 (if fca then false else negb (mode_eqb (ty f) W))) as IH.
-  destruct (xfer_rest ty fca (mode_eqb (ty f) W) rest (if fca then mode_eqb (ty f) W else false)
+  destruct (xfer_rest nn ty fca (mode_eqb (ty f) W) rest (if fca then mode_eqb (ty f) W else false)
               (if fca then false else negb (mode_eqb (ty f) W))) as [[[m s] a] b].
   cbn [fst snd] in *. destruct a; [|cbn [andb]; intros X; discriminate X].
   intros _. destruct (IH eq_refl) as [E | E]; destruct fca; try discriminate; exact E.
 Qed.
 
-Lemma xfer_set_cases ty fca wk : snd (xfer ty fca wk) = 0 \/ snd (xfer ty fca wk) = MU_WRITER_WAITING.
+Lemma xfer_set_cases nn ty fca wk : snd (xfer nn ty fca wk) = 0 \/ snd (xfer nn ty fca wk) = MU_WRITER_WAITING.
 Proof.
   unfold xfer. destruct wk as [|f rest]; [left; reflexivity|].
-  destruct (xfer_rest ty fca (mode_eqb (ty f) W) rest (if fca then mode_eqb (ty f) W else false)
+  destruct (xfer_rest nn ty fca (mode_eqb (ty f) W) rest (if fca then mode_eqb (ty f) W else false)
               (if fca then false else negb (mode_eqb (ty f) W))) as [[[m s] a] b].
   cbn [snd]. destruct (a && negb b); auto.
 Qed.
@@ -436,7 +441,7 @@ Proof.
   destruct (mu_idle (mw xw) t) eqn:MI; try exact H0.
   assert (t < length (xthr xw))%nat as Ht by (apply xget_inb; rewrite Hx; discriminate).
   pose proof H0 as (_ & HA & _). pose proof Hx as Hx'. unfold xget in Hx.
-  destruct o as [o'|m| |]; xn Hx; rewrite ?nth_lupd_same by exact Ht; cbn [x_pc x_ops x_rets];
+  destruct o as [o'|m| | |[m|]]; xn Hx; rewrite ?nth_lupd_same by exact Ht; cbn [x_pc x_ops x_rets];
     (apply SInv_same; [exact H0 | exact Ht | | apply FP_refl | reflexivity | | | ]).
   all: try (intros t' N; first [reflexivity | unfold push_op; now apply get_set_t_other]).
   all: unfold xk; rewrite ?Hx'; cbn [x_pc xkr]; rewrite ?xkr_push_op; try reflexivity; try apply HA; try exact I.
@@ -512,8 +517,8 @@ Proof.
   - (* XkLoad *) assert (t < length (xthr xw))%nat as Ht by (apply HtN; discriminate).
     destruct c; [|destruct (cvq xw)]; cbn [fst]; try exact H1; xn Hx; ssame H1 Ht Hx' HA.
   - (* XkSelect *) assert (t < length (xthr xw))%nat as Ht by (apply HtN; discriminate).
-    destruct (if bc then sel_broadcast (wtype (mw xw)) (cvq xw) else sel_signal (wtype (mw xw)) (cvq xw)) as [[wk kp] allr].
-    destruct wk; cbn [fst]; xn Hx; ssame H1 Ht Hx' HA.
+    destruct (if bc then sel_broadcast (xrd xw) (cvq xw) else sel_signal (xrd xw) (cvq xw)) as [[wk kp] allr].
+    destruct wk as [|f wk']; [|destruct (nrec xw f)]; cbn [fst]; xn Hx; ssame H1 Ht Hx' HA.
   - (* XvLoad1 *) assert (t < length (xthr xw))%nat as Ht by (apply HtN; discriminate).
     destruct (xfer_wanted (wtype (mw xw)) (word (mw xw)) k) eqn:XW; cbn [fst]; xn Hx;
       [|unfold wake_loop; destruct (k_wake k)]; ssame H1 Ht Hx' HA.
@@ -522,9 +527,9 @@ Proof.
   - (* XvCas1 *) assert (t < length (xthr xw))%nat as Ht by (apply HtN; discriminate).
     unfold cas. destruct (wake_cas_old_eq old) as [-> _].
     destruct (Z.eqb_spec (word (mw xw)) old) as [Hc|Hc]; cbv beta iota.
-    + pose proof (xfer_set_cases (wtype (mw xw)) (first_cant_acquire (wtype (mw xw)) old (k_wake k)) (k_wake k)) as Hs.
-      pose proof (xfer_ww_moved (wtype (mw xw)) (first_cant_acquire (wtype (mw xw)) old (k_wake k)) (k_wake k)) as Hm.
-      destruct (xfer (wtype (mw xw)) (first_cant_acquire (wtype (mw xw)) old (k_wake k)) (k_wake k)) as [[moved stay] set_on].
+    + pose proof (xfer_set_cases (nrec xw) (wtype (mw xw)) (first_cant_acquire (wtype (mw xw)) old (k_wake k)) (k_wake k)) as Hs.
+      pose proof (xfer_ww_moved (nrec xw) (wtype (mw xw)) (first_cant_acquire (wtype (mw xw)) old (k_wake k)) (k_wake k)) as Hm.
+      destruct (xfer (nrec xw) (wtype (mw xw)) (first_cant_acquire (wtype (mw xw)) old (k_wake k)) (k_wake k)) as [[moved stay] set_on].
       cbn [fst snd] in Hs, Hm. cbn [fst]. xn Hx.
       apply SInv_intro; [exact H1 | exact Ht | sframe | | apply HA |].
       * cbn [x_pc xkr word queue set_queue set_word k_clr]. destruct (wake_cas1_bits old) as [B1 B2]. rewrite B1, B2.
@@ -561,6 +566,40 @@ Proof.
     destruct (k_wake k) as [|p rest]; cbn [fst]; xn Hx; ssame H1 Ht Hx' HA.
   - (* XvV *) assert (t < length (xthr xw))%nat as Ht by (apply HtN; discriminate).
     cbn [fst]; xn Hx; unfold wake_loop; destruct (k_wake k); ssame H1 Ht Hx' HA.
+  - (* XnStore0 *) assert (t < length (xthr xw))%nat as Ht by (apply HtN; discriminate). cbn [fst]. xn Hx.
+    ssame H1 Ht Hx' HA.
+  - (* XnEnq *) assert (t < length (xthr xw))%nat as Ht by (apply HtN; discriminate). destruct Hp as (PI & _).
+    destruct om as [m|]; cbn [fst]; xn Hx; ssame H1 Ht Hx' HA.
+    + rewrite get_set_pc_same by (cbn [thr set_waiting]; rewrite Hlen; exact Ht). cbn [t_pc].
+      change (get (set_waiting (mw xw) t (negb (cv_enqueue_store1_new =? 0))) t) with (get (mw xw) t). rewrite PI. reflexivity.
+    + rewrite get_set_pc_same by (cbn [thr set_waiting]; rewrite Hlen; exact Ht). exact I.
+  - (* XnUnlock *) assert (t < length (xthr xw))%nat as Ht by (apply HtN; discriminate).
+    unfold mu_step. destruct (step (mw xw) t) as [m' e] eqn:E. xnorm.
+    assert (m' = fst (step (mw xw) t)) as Em by now rewrite E.
+    cbn [mw]. destruct (mu_pc_idle m' t); cbn [fst]; xn Hx; rewrite Em.
+    + apply (SInv_mu n Hn); [exact H1 | exact HI | exact Ht | rewrite Hx'; reflexivity | reflexivity | exact I].
+    + apply (SInv_mu0 n Hn); [exact H1 | exact HI | rewrite Hx'; reflexivity].
+  - (* XnReady *) assert (t < length (xthr xw))%nat as Ht by (apply HtN; discriminate).
+    destruct (cv_ready_time_load1_guard (b2z (waiting (mw xw) t))); cbn [fst]; xn Hx; ssame H1 Ht Hx' HA.
+  - (* XnSem *) assert (t < length (xthr xw))%nat as Ht by (apply HtN; discriminate).
+    destruct c; [destruct (0 <? sem (mw xw) t)|]; cbn [fst]; try exact H1; xn Hx; ssame H1 Ht Hx' HA.
+  - (* XnDeq *) assert (t < length (xthr xw))%nat as Ht by (apply HtN; discriminate). destruct Hp as (PI & _).
+    destruct (waiting (mw xw) t && cv_dequeue_store1_guard (b2z (mem_id t (cvq xw)))); [destruct om as [m|]|]; cbn [fst]; xn Hx;
+      ssame H1 Ht Hx' HA.
+    + rewrite get_set_pc_same by (cbn [thr set_waiting]; rewrite Hlen; exact Ht). cbn [t_pc].
+      change (get (set_waiting (mw xw) t (negb (cv_dequeue_store1_new =? 0))) t) with (get (mw xw) t). rewrite PI. reflexivity.
+    + rewrite get_set_pc_same by (cbn [thr set_waiting]; rewrite Hlen; exact Ht). exact I.
+  - (* XnSpin *) assert (t < length (xthr xw))%nat as Ht by (apply HtN; discriminate). destruct Hp as (PI & _).
+    destruct (waiting (mw xw) t); [|destruct om as [m|]]; cbn [fst]; try exact H1; xn Hx; ssame H1 Ht Hx' HA.
+    + rewrite get_set_pc_same by (rewrite Hlen; exact Ht). cbn [t_pc]. rewrite PI. reflexivity.
+    + rewrite get_set_pc_same by (rewrite Hlen; exact Ht). exact I.
+  - (* XnReacq *) assert (t < length (xthr xw))%nat as Ht by (apply HtN; discriminate).
+    unfold mu_step. destruct (step (mw xw) t) as [m' e] eqn:E. xnorm.
+    assert (m' = fst (step (mw xw) t)) as Em by now rewrite E.
+    cbn [mw]. destruct (mu_pc_idle m' t); cbn [fst]; xn Hx.
+    + rewrite nth_lupd_same by exact Ht. cbn [x_ops x_rets]. rewrite Em.
+      apply (SInv_mu n Hn); [exact H1 | exact HI | exact Ht | rewrite Hx'; reflexivity | reflexivity | exact I].
+    + rewrite Em. apply (SInv_mu0 n Hn); [exact H1 | exact HI | rewrite Hx'; reflexivity].
 Qed.
 End SpinInvariant.
 
